@@ -272,6 +272,11 @@ func (d *Diamond) mergeSplits(filePackedC chan<- filePacked, errorC chan<- error
 
 				existing := obj.(mergeEntry)
 				if file.Hash == existing.Hash {
+					if file.Timestamp.After(existing.Timestamp) {
+						// same content uploaded again later: remember the most recent upload,
+						// so that arbitration against other versions does not depend on arrival order
+						mergeIndex, _, _ = mergeIndex.Insert(key, mergeEntry{BundleEntry: file, ID: splitID})
+					}
 					continue
 				}
 
